@@ -9,7 +9,7 @@ import (
 	b2 "github.com/mspnp/go-batcher/v2"
 )
 
-// setters: every v2 With* setter called before and after Start: does it panic?
+// setters: every v2 With* setter called before Start, after Start, while paused and after shutdown: does it panic?
 func init() { register("setters", famSetters) }
 
 func famSetters(args []string, out *bufio.Writer) error {
@@ -33,7 +33,7 @@ func famSetters(args []string, out *bufio.Writer) error {
 		{"WithEmitRequest", func(b b2.Batcher) { b.WithEmitRequest() }},
 	}
 	for _, st := range setters {
-		for _, when := range []string{"before", "after", "stopped"} {
+		for _, when := range []string{"before", "after", "paused", "stopped"} {
 			res := "ok"
 			synctestRun(func() {
 				b := b2.NewBatcherWithBuffer(2)
@@ -48,6 +48,10 @@ func famSetters(args []string, out *bufio.Writer) error {
 				if when == "stopped" {
 					cancel()
 					time.Sleep(time.Second)
+				}
+				if when == "paused" {
+					b.Pause()
+					time.Sleep(100 * time.Millisecond) // inside the (default 500 ms) pause
 				}
 				func() {
 					defer func() {
